@@ -4,6 +4,7 @@ import (
 	"fmt"
 	"io"
 	"net/http"
+	"sort"
 
 	"github.com/DemoHn/Zn/pkg/common"
 	"github.com/DemoHn/Zn/pkg/exec"
@@ -51,10 +52,21 @@ func buildIncomingRequestBody(req *http.Request) (runtime.Element, error) {
 	return value.NewString(string(body)), nil
 }
 
+// sortedKeys - keys of a header / query map in sorted order, so that dictionaries
+// built from a request have a reproducible key order
+func sortedKeys(m map[string][]string) []string {
+	keys := make([]string, 0, len(m))
+	for k := range m {
+		keys = append(keys, k)
+	}
+	sort.Strings(keys)
+	return keys
+}
+
 func buildIncomingRequest(r *http.Request) (runtime.Element, error) {
 	headerDict := value.NewEmptyHashMap()
-	for k, v := range r.Header {
-		if len(v) > 0 {
+	for _, k := range sortedKeys(r.Header) {
+		if v := r.Header[k]; len(v) > 0 {
 			headerDict.AppendKVPair(value.KVPair{
 				Key:   k,
 				Value: value.NewString(v[0]),
@@ -63,8 +75,9 @@ func buildIncomingRequest(r *http.Request) (runtime.Element, error) {
 	}
 
 	qsDict := value.NewEmptyHashMap()
-	for k, v := range r.URL.Query() {
-		if len(v) > 0 {
+	query := r.URL.Query()
+	for _, k := range sortedKeys(query) {
+		if v := query[k]; len(v) > 0 {
 			qsDict.AppendKVPair(value.KVPair{
 				Key:   k,
 				Value: value.NewString(v[0]),
